@@ -13,7 +13,7 @@ between any two callbacks that report events — "the application collects event
 `lc` per slot (life-cycle automaton `lcStep` run over the events taken for the slot:
 0 off, 1 online, 2 configured).
 -/
-import ProfiVerif.Lemmas.Dp14
+import ProfiVerif.Lemmas.Dp14Turns
 
 namespace PV.C14
 open PV PV.Dp
@@ -251,8 +251,8 @@ how the index moves: within one poll through consecutive occupied slots (`turn_o
 end of a poll / on a reply to the *next* occupied slot or — exactly when none follows — back to the
 start together with the `cycle_completed` report (`cycle_completed_poll`, `cycle_completed_reply`,
 `next_is_next_occupied`).  So between two `cycle_completed` reports the index passes every occupied
-slot once, in slot order; the composition of these step facts into a statement about whole histories
-is not formalised (see `not_proved`); the oracle checks it on every trace. -/
+slot once, in slot order: `turn_order` / `cycle_completed_once` below state that for whole histories
+(bookkeeping `Turns` / `trun` of `Lemmas/Dp14Turns.lean`). -/
 
 /-- `turn_order` within one poll: starting with the cycle index at the occupied slot `o`, the loop
 invokes `Peripheral::transmit_telegram` on exactly the occupied slots from `o` up to the slot `e`
@@ -303,6 +303,62 @@ theorem next_is_next_occupied {slots : List (Option Peripheral)} {index i : Nat}
     (nextSlot slots index = none → ∀ k, i < k → occupied slots k = false) :=
   ⟨fun _ hn => nextSlot_is_next hc hn, fun hn => nextSlot_none_last hc hn⟩
 
+
+/-! ### Turn order over whole histories
+
+`Lemmas/Dp14Turns.lean`: a *visit* is one invocation of `Peripheral::transmit_telegram` by the loop of
+the master's `transmit_telegram` (`visits` lists the slots of one call, mirroring the loop); a *turn*
+is a maximal run of consecutive visits of the same slot within a pass (a request and its
+retransmissions); a *pass* ends with a callback that reports `cycle_completed` (`reported`).  `trun`
+runs a history like `grun` and keeps the turns of the current pass and the completed passes. -/
+
+/-- The bookkeeping run exists for every contract history (it only adds observations). -/
+theorem turns_total (fp : FdlParams) (slots : List (Option Peripheral)) (gr : Bool) (ops : List Op) {g : G}
+    (h : grun fp (G.init slots gr) ops = .ok g) : ∃ t, trun fp (G.init slots gr) {} ops = .ok (g, t) :=
+  trun_of_grun fp ops _ _ g h
+
+/-- **`turn_order`** (whole histories).  After every history the FDL contract allows — any replies and
+time-outs, polls at any time (also while a request is outstanding), user calls incl.
+`reset_address()` at any point, any number of peripherals in arbitrary sparse storage:
+
+* every completed pass (the turns between two consecutive `cycle_completed` reports, and before the
+  first) consists of exactly the occupied slots, each once, in ascending slot order;
+* the occupied slots never change;
+* the current pass is the ascending list of the occupied slots before the slot `o` under the cycle
+  index, followed by `o` itself once its turn has begun (certainly while its request is outstanding);
+  it is empty right after a report. -/
+theorem turn_order {fp : FdlParams} (hfp : FpOk fp) {slots : List (Option Peripheral)} (hinit : InitOk fp slots)
+    (gr : Bool) (ops : List Op) {g : G} {t : Turns} (h : trun fp (G.init slots gr) {} ops = .ok (g, t)) :
+    (∀ P ∈ t.done, P.reverse = occAll slots) ∧ occAll g.m.slots = occAll slots ∧
+    (g.m.cycle = .completed → t.pass = []) ∧
+    (∀ index, g.m.cycle = .dx index → curSlot g.m.slots index = none → t.pass = []) ∧
+    (∀ index o p, g.m.cycle = .dx index → curSlot g.m.slots index = some (o, p) →
+      (t.pass.reverse = occIn g.m.slots 0 o ∨ t.pass.reverse = occIn g.m.slots 0 (o + 1)) ∧
+      (g.out.isSome = true → t.pass.reverse = occIn g.m.slots 0 (o + 1))) := by
+  have hT := tinv_run hfp ops _ _ g t (inv_init hinit gr) (tinv_init slots gr) h
+  refine ⟨?_, hT.occ, hT.open_.compl, hT.open_.none_, ?_⟩
+  · intro P hP
+    rw [hT.done P hP, List.reverse_reverse, hT.occ]
+  · intro index o p hcy hc
+    obtain ⟨h1, h2⟩ := hT.open_.some_ index o p hcy hc
+    refine ⟨?_, fun ho => by rw [h2 ho, List.reverse_reverse]⟩
+    rcases h1 with h1 | h1
+    · left; rw [h1, List.reverse_reverse]
+    · right; rw [h1, List.reverse_reverse]
+
+/-- **`cycle_completed_once`** (whole histories).  There are exactly as many completed passes as
+`cycle_completed` reports (a pass is closed by a report and by nothing else), and in every completed
+pass every occupied slot has exactly one turn and no other slot has any: between two consecutive
+reports each configured peripheral gets its turn once. -/
+theorem cycle_completed_once {fp : FdlParams} (hfp : FpOk fp) {slots : List (Option Peripheral)} (hinit : InitOk fp slots)
+    (gr : Bool) (ops : List Op) {g : G} {t : Turns} (h : trun fp (G.init slots gr) {} ops = .ok (g, t)) :
+    t.done.length = reports fp (G.init slots gr) ops ∧
+    ∀ P ∈ t.done, ∀ j, P.count j = if occupied slots j = true then 1 else 0 := by
+  refine ⟨by simpa using done_length fp ops _ _ g t h, ?_⟩
+  intro P hP j
+  have := (turn_order hfp hinit gr ops h).1 P hP
+  rw [← List.count_reverse, this, count_occAll]
+
 /-! ### Non-vacuity -/
 
 /-- The example bring-up collects after every poll: `collected` holds, the taken events are
@@ -320,5 +376,20 @@ def exCheck : Bool :=
    | _ => false)
 
 example : exCheck = true := by decide +kernel
+
+/-- Turn bookkeeping on concrete histories: one peripheral in slot 1 of `[none, some _]` — the bring-up
+history completes several passes, each consisting of slot 1 alone; three peripherals in sparse storage,
+none answering: every pass is `[0, 2, 3]` ascending (stored newest first). -/
+def turnsCheck : Bool :=
+  (match trun Ex.fp (G.init Ex.slots false) {} Ex.bringUp with
+   | .ok (_, t) => t.done.length ≥ 4 && t.done.all (· == [1]) && t.done.length == reports Ex.fp (G.init Ex.slots false) Ex.bringUp
+   | _ => false) &&
+  (match trun Ex.fp (G.init [some Ex.p7, none, some Ex.p7, some Ex.p7] false) {}
+      [.tx 1000 false, .tx 2000 false, .timeout 7, .tx 3000 false, .timeout 7, .tx 4000 false, .timeout 7,
+       .tx 5000 false, .tx 6000 false, .tx 7000 false] with
+   | .ok (_, t) => t.done.length ≥ 1 && t.done.all (· == [3, 2, 0])
+   | _ => false)
+
+example : turnsCheck = true := by decide +kernel
 
 end PV.C14
